@@ -1,8 +1,12 @@
 package rules
 
 import (
+	"fmt"
 	"go/ast"
+	"go/token"
 	"go/types"
+
+	"golang.org/x/tools/go/cfg"
 
 	"osmcheck/core"
 )
@@ -13,13 +17,19 @@ import (
 //   - the skippable set is the context field of type map[osm.WayID]struct{};
 //   - the interest predicate is a function of the package with signature func(osm.Tags, map[string]string) bool
 //     (second argument: tags to discount);
-//   - the multipolygon builder is any function that handles orb.MultiPolygon values or is called only from such
-//     functions; its outer-way rule deliberately discounts tags repeated on the relation (C16, not claimed).
+//   - the multipolygon builder is decided by role (c17_role.go); its rule for OUTER ways deliberately discounts tags
+//     repeated on the relation, and an old-style multipolygon's single outer way takes over the relation (C16).
 //
-// Outside the multipolygon builder every store into the skippable set must be controlled by the fact
-// "predicate(<way>.Tags, nil) is false" for the same way (decided on guard facts: any branch shape, boolean locals
-// and predicate helpers are looked through). When the store or the discount argument is a parameter of an
-// unexported helper the verdict is taken at each call site of the helper.
+// Every store into the skippable set must be controlled by the fact "predicate(<way>.Tags, D) is false" for the same
+// way (guard facts: any branch shape, boolean locals and predicate helpers are looked through), and the discount set
+// D must be nil on every path reaching the guard. D may be a literal nil, a local (every assignment of the local is
+// examined: a local set on both arms of an if/else, or declared nil and bound conditionally, is the same thing), or
+// a parameter of an unexported helper (the verdict is then taken at each call site). Inside the multipolygon builder
+// a non-nil D is accepted only if no member other than an outer way can see it: the CFG is evaluated with
+// `<osm.Member>.Role != "outer"` (finite domain), and the guard must be unreachable, or every non-nil assignment of the
+// local carrying D (which must live in the same loop iteration) must be unable to execute or be overwritten before the
+// guard. This covers `if outer {D = tags}`, both-arms if/else, `D := tags; if !outer {D = nil}`, switches on the role
+// and boolean locals naming the test. A guard testing the relation's own tags (old-style multipolygon) is C16's.
 func c17G6(r *core.R) {
 	o := c17LoadOptions(r)
 	if o == nil {
@@ -30,7 +40,7 @@ func c17G6(r *core.R) {
 		return
 	}
 	a := c17NewPkg(r.P, o.pk)
-	an := &c17G6An{r: r, o: o, a: a, poly: func(fn *c17Fn) bool { return a.polygonOnly(fn, map[*c17Fn]bool{}) }}
+	an := &c17G6An{r: r, o: o, a: a, poly: func(fn *c17Fn) bool { return a.polygonOnly(fn, map[*c17Fn]bool{}) }, reach: map[*c17Fn]map[*cfg.Block]bool{}}
 	// the interest predicate by signature
 	for _, fn := range a.list {
 		sig := fn.Obj.Type().(*types.Signature)
@@ -70,11 +80,12 @@ func c17G6(r *core.R) {
 }
 
 type c17G6An struct {
-	r    *core.R
-	o    *c17Opt
-	a    *c17Pkg
-	pred []*types.Func
-	poly func(*c17Fn) bool
+	r     *core.R
+	o     *c17Opt
+	a     *c17Pkg
+	pred  []*types.Func
+	poly  func(*c17Fn) bool
+	reach map[*c17Fn]map[*cfg.Block]bool // blocks reachable for a member that is not an outer way
 }
 
 func (an *c17G6An) isPred(f *types.Func) bool {
@@ -86,16 +97,270 @@ func (an *c17G6An) isPred(f *types.Func) bool {
 	return false
 }
 
+// c17OuterRole is the member role of the OSM multipolygon relation whose ways may repeat the relation's tags.
+const c17OuterRole = "outer"
+
+// ---- "the member is not an outer way" as a finite-domain valuation --------------------------------------------
+
+// evalNotOuter evaluates a condition assuming every `<osm.Member>.Role` differs from "outer" (three-valued; boolean
+// locals assigned once and predicate helpers are looked through; comparisons with other roles stay unknown).
+func (an *c17G6An) evalNotOuter(fn *c17Fn, e ast.Expr, depth int) tri {
+	a, info := an.a, an.a.info
+	return evalTri(e, func(x ast.Expr) tri {
+		x = ast.Unparen(x)
+		switch y := x.(type) {
+		case *ast.Ident:
+			if o := objOf(info, y); o != nil && depth < 4 && c17IsBool(o.Type()) {
+				if init := a.singleInit(fn, o); init != nil {
+					return an.evalNotOuter(fn, init, depth+1)
+				}
+			}
+		case *ast.CallExpr:
+			if depth < 4 {
+				if _, ret := a.predicate(y); ret != nil {
+					return an.evalNotOuter(fn, ret, depth+1)
+				}
+			}
+		case *ast.BinaryExpr:
+			if y.Op != token.EQL && y.Op != token.NEQ {
+				return triU
+			}
+			for _, pair := range [][2]ast.Expr{{y.X, y.Y}, {y.Y, y.X}} {
+				f := c17FieldOf(info, stripDerefParen(pair[0]))
+				if f == nil || f.Name() != "Role" || c17FieldOwner(a.p, f) != "Member" {
+					continue
+				}
+				if s, ok := constString(info, ast.Unparen(pair[1])); ok && s == c17OuterRole {
+					return c17TriOf(y.Op == token.NEQ)
+				}
+			}
+		}
+		return triU
+	})
+}
+
+// feasibleNotOuter lists the successors of b a non-outer member can take.
+func (an *c17G6An) feasibleNotOuter(fn *c17Fn, b *cfg.Block) []*cfg.Block {
+	if len(b.Succs) == 2 {
+		if c := fn.cond(b); c != nil {
+			switch an.evalNotOuter(fn, c, 0) {
+			case triT:
+				return b.Succs[:1]
+			case triF:
+				return b.Succs[1:]
+			}
+		}
+	}
+	return b.Succs
+}
+
+// reachNotOuter: the blocks of fn a non-outer member can reach from the function entry.
+func (an *c17G6An) reachNotOuter(fn *c17Fn) map[*cfg.Block]bool {
+	if m, ok := an.reach[fn]; ok {
+		return m
+	}
+	seen := map[*cfg.Block]bool{}
+	work := []*cfg.Block{fn.graph().Blocks[0]}
+	for len(work) > 0 {
+		b := work[len(work)-1]
+		work = work[:len(work)-1]
+		if seen[b] {
+			continue
+		}
+		seen[b] = true
+		work = append(work, an.feasibleNotOuter(fn, b)...)
+	}
+	an.reach[fn] = seen
+	return seen
+}
+
+// assignsVar: node n (a CFG node) assigns local ov.
+func (an *c17G6An) assignsVar(n ast.Node, ov *types.Var) bool {
+	info := an.a.info
+	switch s := n.(type) {
+	case *ast.AssignStmt:
+		for _, l := range s.Lhs {
+			if objOf(info, l) == ov {
+				return true
+			}
+		}
+	case *ast.ValueSpec:
+		for _, nm := range s.Names {
+			if info.Defs[nm] == ov {
+				return true
+			}
+		}
+	}
+	return false
+}
+
+// defReachesUse: for a non-outer member, the value assigned to ov at node def can still be in ov when node use is
+// evaluated in the same loop iteration (no other assignment of ov on some feasible path from def to use).
+func (an *c17G6An) defReachesUse(fn *c17Fn, ov *types.Var, def, use ast.Node, loopHead *cfg.Block) bool {
+	bd := fn.blockAt(def.Pos())
+	if bd == nil || !an.reachNotOuter(fn)[bd] {
+		return false // the assignment cannot execute for a non-outer member
+	}
+	contains := func(n ast.Node, p token.Pos) bool { return n.Pos() <= p && p < n.End() }
+	// scan returns (reached use, killed) for the nodes of b after position from
+	scan := func(b *cfg.Block, from token.Pos) (bool, bool) {
+		for _, n := range b.Nodes {
+			if n.End() <= from {
+				continue
+			}
+			if contains(n, use.Pos()) {
+				return true, false
+			}
+			if an.assignsVar(n, ov) {
+				return false, true
+			}
+		}
+		return false, false
+	}
+	if hit, killed := scan(bd, def.End()); hit {
+		return true
+	} else if killed {
+		return false
+	}
+	seen := map[*cfg.Block]bool{}
+	work := append([]*cfg.Block{}, an.feasibleNotOuter(fn, bd)...)
+	for len(work) > 0 {
+		b := work[len(work)-1]
+		work = work[:len(work)-1]
+		if seen[b] || b == loopHead {
+			continue
+		}
+		seen[b] = true
+		hit, killed := scan(b, token.NoPos)
+		if hit {
+			return true
+		}
+		if killed {
+			continue
+		}
+		work = append(work, an.feasibleNotOuter(fn, b)...)
+	}
+	return false
+}
+
+func (an *c17G6An) isNil(e ast.Expr) bool {
+	e = ast.Unparen(e)
+	if tv, ok := an.a.info.Types[e]; ok && tv.IsNil() {
+		return true
+	}
+	id, ok := e.(*ast.Ident)
+	return ok && id.Name == "nil" && an.a.info.Uses[id] == types.Universe.Lookup("nil")
+}
+
+// discount decides the discount argument ign of the guard (node use) of a store in fn. It returns bad == "" and a
+// proof when every value ign can hold at the guard is acceptable: nil everywhere; inside the multipolygon builder also
+// a non-nil set as long as no non-outer member can see it (evaluation of the CFG with `<member>.Role != "outer"`: the
+// guard is unreachable, or no non-nil assignment of the local carrying the set reaches the guard without being
+// overwritten; the local must live in the same loop iteration). param != nil: ign is a parameter, the verdict is
+// taken at the call sites.
+func (an *c17G6An) discount(fn *c17Fn, use ast.Node, ign ast.Expr, builder bool) (bad, proof string, param *types.Var) {
+	info, fset := an.a.info, an.a.fset
+	ign = ast.Unparen(ign)
+	if an.isNil(ign) {
+		return "", "the discount set is nil: the way is skipped only when it has no interesting tag at all", nil
+	}
+	here := fn.blockAt(use.Pos())
+	if builder && here != nil && !an.reachNotOuter(fn)[here] {
+		return "", "the guard with the relation's tags as discount set is unreachable unless `<member>.Role == \"outer\"` (outer members may repeat the relation's tags, C16)", nil
+	}
+	ov, _ := objOf(info, ign).(*types.Var)
+	if ov == nil || ov.IsField() {
+		bad = "the tags in `" + src(fset, ign) + "` are discounted"
+		if builder {
+			bad += " for members not known to be outer ways"
+		}
+		return bad, "", nil
+	}
+	if fn.isParam(ov) {
+		return "", "", ov
+	}
+	// a local: every assignment that can still be visible at the guard must be nil
+	var loop ast.Node
+	var loopHead *cfg.Block
+	if loops := fn.loopsAround(use); len(loops) > 0 {
+		loop = loops[len(loops)-1]
+		for _, b := range fn.graph().Blocks {
+			if b.Stmt == loop && (b.Kind == cfg.KindRangeLoop || b.Kind == cfg.KindForLoop) {
+				loopHead = b
+			}
+		}
+	}
+	n, nOuter := 0, 0
+	check := func(node ast.Node, rhs ast.Expr) {
+		n++
+		if rhs == nil || an.isNil(rhs) || bad != "" {
+			return
+		}
+		if builder && (loop == nil || (ov.Pos() > loop.Pos() && ov.Pos() < loop.End())) && !an.defReachesUse(fn, ov, node, use, loopHead) {
+			nOuter++
+			return
+		}
+		bad = "`" + src(fset, node) + "` binds the discount set `" + ov.Name() + "` to `" + src(fset, rhs) + "`"
+		switch {
+		case !builder:
+		case loop != nil && !(ov.Pos() > loop.Pos() && ov.Pos() < loop.End()):
+			bad += " and `" + ov.Name() + "`, declared outside the loop of the store, carries it on to the next member"
+		default:
+			bad += ", which a member that is not an outer way can still see at the guard"
+		}
+	}
+	ast.Inspect(fn.Decl.Body, func(x ast.Node) bool {
+		switch s := x.(type) {
+		case *ast.AssignStmt:
+			for i, l := range s.Lhs {
+				if objOf(info, l) != ov {
+					continue
+				}
+				if len(s.Lhs) != len(s.Rhs) {
+					n++
+					if bad == "" {
+						bad = "`" + src(fset, s) + "` assigns the discount set from a multi-value expression"
+					}
+					continue
+				}
+				check(s, s.Rhs[i])
+			}
+		case *ast.ValueSpec:
+			for i, nm := range s.Names {
+				if info.Defs[nm] != ov {
+					continue
+				}
+				if len(s.Values) == len(s.Names) {
+					check(s, s.Values[i])
+				} else {
+					check(s, nil)
+				}
+			}
+		case *ast.UnaryExpr:
+			if s.Op == token.AND && objOf(info, s.X) == ov && bad == "" {
+				bad = "the address of `" + ov.Name() + "` is taken"
+			}
+		}
+		return true
+	})
+	switch {
+	case bad != "":
+		return bad, "", nil
+	case n == 0:
+		return "`" + ov.Name() + "` is never assigned in " + fn.Name(), "", nil
+	case nOuter == 0:
+		return "", "`" + ov.Name() + "` is nil on every path: the way is skipped only when it has no interesting tag at all", nil
+	}
+	return "", fmt.Sprintf("`%s` is nil at the guard for every member that is not an outer way: its %d non-nil assignment(s) cannot execute, or are overwritten before the guard, when `<member>.Role != \"outer\"` (outer members may repeat the relation's tags, C16)", ov.Name(), nOuter), nil
+}
+
 // store decides one store `skippable[key] = …` seen from function fn at node at (the store itself or, for a store
 // inside a helper, the call of the helper); key is the key in the terms of fn; ign, when non-nil, is the discount
 // argument (in the terms of fn) of a guard already found in the helper.
 func (an *c17G6An) store(fn *c17Fn, at ast.Node, key, shown ast.Expr, ign ast.Expr, depth int) {
 	r, a, info, fset := an.r, an.a, an.a.info, an.a.fset
 	c := "skippable@" + fn.Name() + " " + src(fset, shown)
-	if an.poly(fn) {
-		r.OKTrivial(c, at.Pos(), "inside the multipolygon builder (%s handles orb.MultiPolygon values or is called only from functions that do): outer/inner way rules belong to C16 (not claimed)", fn.Name())
-		return
-	}
+	builder := an.poly(fn)
 	key = stripDerefParen(a.resolve(fn, stripDerefParen(key)))
 	wayObj := rootObj(info, key)
 	if sel, ok := key.(*ast.SelectorExpr); ok {
@@ -123,14 +388,16 @@ func (an *c17G6An) store(fn *c17Fn, at ast.Node, key, shown ast.Expr, ign ast.Ex
 		}
 		return m
 	}
+	guard := at
 	if ign == nil {
-		// find the controlling fact
+		// find the controlling fact: `pred(<way>.Tags, IGN)` is false at the store
 		b := fn.blockAt(at.Pos())
 		if b == nil {
 			r.Unknown(c, at.Pos(), "the store is not in the control-flow graph of %s", fn.Name())
 			return
 		}
 		var hit, other *guardFact
+		otherRelation := false
 		facts := fn.factsAt(b)
 		for i := range facts {
 			ft := &facts[i]
@@ -140,10 +407,14 @@ func (an *c17G6An) store(fn *c17Fn, at ast.Node, key, shown ast.Expr, ign ast.Ex
 			}
 			arg := stripDerefParen(a.resolve(fn, stripDerefParen(call.Args[0])))
 			tf := c17FieldOf(info, arg)
-			if tf != nil && namedPath(tf.Type()) == core.ModulePath+".Tags" && wayObj != nil {
-				if rootObj(info, a.resolveAlias(fn, arg.(*ast.SelectorExpr).X)) == wayObj {
+			if tf != nil && namedPath(tf.Type()) == core.ModulePath+".Tags" {
+				owner := arg.(*ast.SelectorExpr).X
+				if wayObj != nil && rootObj(info, a.resolveAlias(fn, owner)) == wayObj {
 					hit = ft
 					break
+				}
+				if namedPath(info.TypeOf(owner)) == core.ModulePath+".Relation" {
+					otherRelation = true
 				}
 			}
 			other = ft
@@ -151,7 +422,10 @@ func (an *c17G6An) store(fn *c17Fn, at ast.Node, key, shown ast.Expr, ign ast.Ex
 		switch {
 		case hit != nil:
 			ign = ast.Unparen(hit.expr).(*ast.CallExpr).Args[1]
-			at = hit.expr
+			guard = hit.expr
+		case other != nil && builder && otherRelation:
+			r.OKTrivial(c, other.expr.Pos(), "inside the multipolygon builder, under `%s` false: the single outer way of an old-style multipolygon takes over the relation's feature (C16, not claimed)", src(fset, other.expr))
+			return
 		case other != nil:
 			r.Bad(c, other.expr.Pos(), "`%s` tests the tags of something other than the way being made skippable (%s)", src(fset, other.expr), src(fset, key))
 			return
@@ -169,66 +443,19 @@ func (an *c17G6An) store(fn *c17Fn, at ast.Node, key, shown ast.Expr, ign ast.Ex
 			return
 		}
 	}
-	// classify the discount argument
-	ign = ast.Unparen(ign)
-	if tv, ok := info.Types[ign]; ok && tv.IsNil() {
-		r.OK(c, at.Pos(), "`%s` is false at the store: the way is skipped only when it has no interesting tag at all", src(fset, at))
-		return
-	}
-	if id, ok := ign.(*ast.Ident); ok {
-		if id.Name == "nil" && info.Uses[id] == types.Universe.Lookup("nil") {
-			r.OK(c, at.Pos(), "`%s` is false at the store: the way is skipped only when it has no interesting tag at all", src(fset, at))
+	bad, proof, prm := an.discount(fn, guard, ign, builder)
+	switch {
+	case prm != nil:
+		if callers(func(cs c17CallSite) {
+			m := paramMap(cs)
+			an.store(cs.fn, cs.call, c17Subst(info, key, m), c17Subst(info, key, m), c17Subst(info, ign, m), depth-1)
+		}) {
 			return
 		}
-		if ov, ok := objOf(info, id).(*types.Var); ok {
-			if fn.isParam(ov) {
-				if callers(func(cs c17CallSite) {
-					m := paramMap(cs)
-					an.store(cs.fn, cs.call, c17Subst(info, key, m), c17Subst(info, key, m), c17Subst(info, ign, m), depth-1)
-				}) {
-					return
-				}
-			} else if !ov.IsField() {
-				// a local: every value it can hold must be nil
-				allNil, n := true, 0
-				culprit := ""
-				ast.Inspect(fn.Decl.Body, func(x ast.Node) bool {
-					switch s := x.(type) {
-					case *ast.AssignStmt:
-						for i, l := range s.Lhs {
-							if objOf(info, l) != ov {
-								continue
-							}
-							n++
-							if len(s.Lhs) != len(s.Rhs) {
-								allNil, culprit = false, src(fset, s)
-							} else if tv, ok := info.Types[ast.Unparen(s.Rhs[i])]; !ok || !tv.IsNil() {
-								allNil, culprit = false, src(fset, s)
-							}
-						}
-					case *ast.ValueSpec:
-						for i, nm := range s.Names {
-							if info.Defs[nm] != ov {
-								continue
-							}
-							n++
-							if len(s.Values) == len(s.Names) {
-								if tv, ok := info.Types[ast.Unparen(s.Values[i])]; !ok || !tv.IsNil() {
-									allNil, culprit = false, src(fset, s)
-								}
-							}
-						}
-					}
-					return true
-				})
-				if allNil && n > 0 {
-					r.OK(c, at.Pos(), "`%s` is false at the store and %s is nil on every path: the way is skipped only when it has no interesting tag at all", src(fset, at), ov.Name())
-					return
-				}
-				r.Bad(c, at.Pos(), "`%s` discounts the tags in `%s` (`%s`): a member way whose interesting tags also appear there gets no feature although the element carries interesting tags", src(fset, at), ov.Name(), culprit)
-				return
-			}
-		}
+		r.Bad(c, guard.Pos(), "`%s` discounts the tags in parameter `%s`, whose callers are not all known: a member way whose interesting tags also appear there gets no feature although the element carries interesting tags", src(fset, guard), prm.Name())
+	case bad != "":
+		r.Bad(c, guard.Pos(), "`%s` is the guard of the store, but %s: a member way whose interesting tags also appear there gets no feature although the element carries interesting tags", src(fset, guard), bad)
+	default:
+		r.OK(c, guard.Pos(), "`%s` is false at the store; %s", src(fset, guard), proof)
 	}
-	r.Bad(c, at.Pos(), "`%s` discounts the tags in `%s`: a member way whose interesting tags also appear there gets no feature although the element carries interesting tags", src(fset, at), src(fset, ign))
 }
